@@ -18,7 +18,10 @@ FAMILIES = {
     'nick': [[0x46, 0x6F, 0x6F, 0x20, 0x42, 0x61, 0x72], [0x66, 0x6F, 0x6F, 0x20, 0x62, 0x61, 0x72], [0x20, 0x46, 0x6F, 0x6F, 0x20, 0x20, 0x42, 0x61, 0x72, 0x20], [0x46, 0x6F, 0x6F, 0xA0, 0x42, 0x61, 0x72],
              [0xFF26, 0x6F, 0x6F, 0x3000, 0x42, 0x61, 0x72], [0x46, 0x6F, 0x6F, 0x42, 0x61, 0x72], [0x1F88], [0x1F80], [0x1F00, 0x345], [0x1C5], [0x1C6], [0x1C4], [0x64, 0x17E],
              [0xA8], [0x20, 0x308], [0x308], [0x2163], [0x49, 0x56], [0x69, 0x76], [0xFDFA], [0x20], [0xAD], [],
-             [0x391, 0x3A3], [0x3B1, 0x3C3], [0x3B1, 0x3C2], [0x391, 0x3A3, 0x20], [0x20, 0x3B1, 0x3C3], [0x41, 0x3A3, 0x20, 0x42], [0x61, 0x3C3, 0x20, 0x62]],
+             [0x391, 0x3A3], [0x3B1, 0x3C3], [0x3B1, 0x3C2], [0x391, 0x3A3, 0x20], [0x20, 0x3B1, 0x3C3], [0x41, 0x3A3, 0x20, 0x42], [0x61, 0x3C3, 0x20, 0x62],
+             # valid on the first application, rejected on a later one (NFKC image disallowed / out of context), alone and in
+             # pairs that become equal after the same number of applications: both operands must still be rejected
+             [0x314B, 0x314B], [0x3131], [0x13F], [0x20, 0x140, 0x20], [0x140], [0x387], [0xFF65], [0x61, 0x3131], [0x3131, 0x20]],
 }
 FAMILIES['up'] = FAMILIES['um']
 
